@@ -118,6 +118,25 @@ def session(item: Tuple[str, Any]) -> Dict[str, Any]:
                 doc = copy.deepcopy(d)
                 log("evaluate", lambda: [m.path for m in p.finditer(doc, filter_context={"a": 1})])
             log("evaluate", lambda: str(p) and jsonpath.compile(str(p)) and 0)
+            if "(" in text:
+                # the same text compiled by an environment of the caller's own, whose function registry is emptied afterwards:
+                # evaluating the compiled query still raises nothing but errors of the family
+                def orphaned() -> Any:
+                    e2 = jsonpath.JSONPathEnvironment()
+                    p2 = e2.compile(text)
+                    e2.function_extensions.clear()
+                    return [[m.path for m in p2.finditer(copy.deepcopy(d), filter_context={"a": 1})] for d in DOCS[:4]]
+
+                log("evaluate", orphaned)
+    elif lang == "pointer-uri":
+        # the same texts read as the caller of a URI fragment would read them: percent-decoding on (escapes that are not UTF-8 included)
+        lang = "pointer"
+        text = "".join(s)
+        p = log("pointer", lambda: JSONPointer(text, uri_decode=True))
+        if p is not None:
+            for d in DOCS[:2] + PDOCS[:2]:
+                log("resolve", lambda: p.resolve(copy.deepcopy(d)))
+            log("join", lambda: p.join("%ff"))
     elif lang == "pointer":
         text = "".join(s)
         p = log("pointer", lambda: JSONPointer(text))
@@ -167,6 +186,8 @@ def run(chk: Check, tier: str, seed: int) -> None:
         chk.add_tlc(r)
         chk.extra[f"inputs_{l}_{m}_{n}"] = len(r.records)
         items += [(l, x["s"]) for x in r.records]
+        if l == "pointer":
+            items += [("pointer-uri", x["s"]) for x in r.records if any("%" in lx for lx in x["s"])]
     # longer soups by seeded sampling of the same alphabet (python side: positions only; alphabet from the spec's own exports)
     sessions = list(core.pmap(session, items, item_timeout=120))
     abnormal = 0
